@@ -6,7 +6,6 @@ import (
 	"fmt"
 	"os"
 	"path/filepath"
-	"sort"
 	"strings"
 	"time"
 )
@@ -27,161 +26,75 @@ import (
 //
 // c12-explore: prints what the mutant sweep observes.
 func init() {
-	register("c12-explore", "C12 development aid: sweep mutants and print escape groups", func(args []string) error {
+	register("c12-explore", "C12 development aid: run the rich stream for some rounds and write the (key, classes) table", func(args []string) error {
 		fs := flag.NewFlagSet("c12-explore", flag.ExitOnError)
 		seed := fs.Uint64("seed", 1, "seed")
-		n := fs.Int("n", 5, "programs")
-		snip := fs.Int("snip", 100, "snippets per program")
-		dump := fs.String("dump", "", "write the first program here")
+		rounds := fs.Int("rounds", 10, "rounds of snippet programs")
 		show := fs.String("show", "", "print mutants whose key contains this")
 		table := fs.String("table", "", "write all (key, classes) rows here as JSON")
-		prelude := fs.Bool("prelude", false, "programs are the prelude program, only the sites of the prelude are mutated")
-		only := fs.String("only", "", "comma separated snippet names: programs consist of these snippets only (prelude sites skipped)")
 		fs.Parse(args)
-		r := newRng(*seed)
-		type grp struct {
-			n       int
-			classes map[string]int
-			example string
-			err     string
-			ref     string
-			src     string
-		}
-		groups := map[string]*grp{}
-		total, dropped := 0, 0
 		t0 := time.Now()
-		for pi := 0; pi < *n; pi++ {
-			p := c12Program(r.fork(), *snip)
-			if *only != "" {
-				p = c12ProgramOf(r.fork(), strings.Split(*only, ","))
+		jobs, err := c12RichPlan(newRng(*seed), *rounds, 6)
+		if err != nil {
+			return err
+		}
+		for _, j := range jobs {
+			if o := c12EvalInProcess(j.Src, j.UseStd, nil, 60*time.Second); o.Class != "accepted" {
+				fmt.Println("ORIGINAL NOT ACCEPTED BY YAEGI:", j.Name, o.Class, o.Err, j.Snippets)
+				os.WriteFile("/tmp/c12-bad.go", []byte(j.Src), 0o644)
+				j.Muts = nil
 			}
-			if *prelude {
-				p = c12PreludeProgram(r.fork())
-			}
-			if *dump != "" && pi == 0 {
-				os.WriteFile(*dump, []byte(p.Src), 0o644)
-			}
-			ck, err := c12TypeCheck(p.Src, true)
-			if err != nil || len(ck.Errs) > 0 {
-				fmt.Println("ORIGINAL NOT WELL-TYPED:", err, ck.Errs)
-				os.WriteFile("/tmp/c12-bad.go", []byte(p.Src), 0o644)
-				return nil
-			}
-			useStd := strings.Contains(p.Src, "\"strings\"")
-			o := c12EvalInProcess(p.Src, useStd, nil, 20*time.Second)
-			if o.Class != "accepted" {
-				fmt.Println("ORIGINAL NOT ACCEPTED BY YAEGI:", o.Class, o.Err, p.Snippets)
-				os.WriteFile("/tmp/c12-bad.go", []byte(p.Src), 0o644)
-				continue
-			}
-			muts := c12Mutants(p.Src, ck)
-			if pi > 0 || *only != "" || *prelude {
-				var keepm []c12mutant
-				for _, mu := range muts {
-					if mu.Prelude == *prelude {
-						keepm = append(keepm, mu)
-					}
-				}
-				muts = keepm
-			}
-			newKeys := 0
-			res := make([]c12Obs, len(muts))
-			keep := make([]bool, len(muts))
-			parallelMap(len(muts), 0, func(i int) {
-				mk, err := c12TypeCheck(muts[i].Src, false)
-				if err != nil {
-					res[i] = c12Obs{Class: "parse-error", Err: err.Error()}
-					return
-				}
-				if len(mk.Errs) == 0 {
-					return
-				}
-				keep[i] = true
-				muts[i].RefErr = mk.Errs[0]
-				res[i] = c12Eval(muts[i].Src, useStd, nil, 20*time.Second)
-			})
-			defer func(pi int) {}(pi)
-			for i, m := range muts {
+		}
+		c12RichEval(jobs)
+		type row struct {
+			Key     string         `json:"key"`
+			Classes map[string]int `json:"classes"`
+			Line    string         `json:"line"`
+			Err     string         `json:"err,omitempty"`
+			Ref     string         `json:"ref"`
+		}
+		rows := map[string]*row{}
+		total, dropped := 0, 0
+		for _, j := range jobs {
+			for _, m := range j.Muts {
 				total++
-				if res[i].Class == "parse-error" {
-					fmt.Println("PARSE ERROR", m.Op, m.Ctx, res[i].Err, "\n   ", m.Line)
-					continue
-				}
-				if !keep[i] {
+				if m.RefErr == "" {
 					dropped++
-					key := "dropped " + m.Op
-					if groups[key] == nil {
-						groups[key] = &grp{classes: map[string]int{}, example: m.Line}
-					}
-					groups[key].n++
 					continue
 				}
-				key := m.Op + " | " + m.Ctx
-				gp := groups[key]
-				if gp == nil {
-					gp = &grp{classes: map[string]int{}}
-					groups[key] = gp
-					newKeys++
+				r := rows[m.Key]
+				if r == nil {
+					r = &row{Key: m.Key, Classes: map[string]int{}, Line: m.Line, Ref: m.RefErr}
+					rows[m.Key] = r
 				}
-				gp.n++
-				gp.classes[res[i].Class]++
-				if res[i].Class != "rejected" && gp.example == "" {
-					gp.example = m.Line
-					gp.err = res[i].Err + " // ref: " + m.RefErr
+				r.Classes[m.Obs.Class]++
+				if m.Obs.Class != "rejected" && r.Err == "" {
+					r.Err, r.Line, r.Ref = m.Obs.Err, m.Line, m.RefErr
 				}
-				if res[i].Class != "rejected" && gp.example == "" || gp.ref == "" {
-					gp.ref = m.RefErr
-					gp.src = m.Line
-				}
-				if *show != "" && strings.Contains(key, *show) {
-					fmt.Printf("SHOW %s | %s -> %s %s\n    %s\n    ref: %s\n", m.Op, m.Ctx, res[i].Class, res[i].Err, m.Line, m.RefErr)
+				if *show != "" && strings.Contains(m.Key, *show) {
+					fmt.Printf("SHOW %s -> %s %s\n    %s\n    ref: %s\n", m.Key, m.Obs.Class, m.Obs.Err, m.Line, m.RefErr)
 				}
 			}
-			fmt.Fprintf(os.Stderr, "program %d: %d mutants, %d new keys, %d keys so far, %.0fs\n", pi, len(muts), newKeys, len(groups), time.Since(t0).Seconds())
 		}
-		if *table != "" {
-			type row struct {
-				Key     string         `json:"key"`
-				Classes map[string]int `json:"classes"`
-				Line    string         `json:"line"`
-				Err     string         `json:"err,omitempty"`
-				Ref     string         `json:"ref"`
-			}
-			var rows []row
-			for k, gp := range groups {
-				if strings.HasPrefix(k, "dropped") {
-					continue
-				}
-				rows = append(rows, row{k, gp.classes, gp.src, gp.err, gp.ref})
-			}
-			sort.Slice(rows, func(i, j int) bool { return rows[i].Key < rows[j].Key })
-			b, _ := json.MarshalIndent(rows, "", " ")
-			os.WriteFile(*table, b, 0o644)
-		}
-		keys := make([]string, 0, len(groups))
-		for k := range groups {
-			keys = append(keys, k)
-		}
-		sort.Strings(keys)
 		nEsc, nMixed := 0, 0
-		for _, k := range keys {
-			gp := groups[k]
-			if strings.HasPrefix(k, "dropped") {
-				fmt.Printf("%-60s %d   e.g. %s\n", k, gp.n, gp.example)
-				continue
-			}
-			if gp.classes["rejected"] == gp.n {
+		var out []*row
+		for _, k := range sortedKeys(rows) {
+			r := rows[k]
+			out = append(out, r)
+			if r.Classes["rejected"] != 0 && len(r.Classes) == 1 {
 				continue
 			}
 			nEsc++
-			mixed := ""
-			if len(gp.classes) > 1 {
-				mixed = " MIXED"
+			if len(r.Classes) > 1 {
 				nMixed++
+				fmt.Printf("MIXED %v %s\n", r.Classes, k)
 			}
-			fmt.Printf("ESCAPE%s %s  %v\n      %s\n      %s\n", mixed, k, gp.classes, gp.example, gp.err)
 		}
-		fmt.Printf("programs %d mutants %d dropped(go/types accepts) %d groups %d escape-groups %d mixed %d  %.1fs\n", *n, total, dropped, len(groups), nEsc, nMixed, time.Since(t0).Seconds())
+		if *table != "" {
+			b, _ := json.MarshalIndent(out, "", " ")
+			os.WriteFile(*table, b, 0o644)
+		}
+		fmt.Printf("jobs %d mutants %d dropped(go/types accepts) %d keys %d escape-keys %d mixed %d  %.1fs\n", len(jobs), total, dropped, len(rows), nEsc, nMixed, time.Since(t0).Seconds())
 		return nil
 	})
 }
